@@ -245,8 +245,7 @@ def statement_sources(text):
 
 
 def norm(line):
-    if line.startswith("ERR"):
-        return "ERR"
+    """whole line: `OK consumed/total tree` or `ERR consumed/total line:col:col ...` (floats numerically)"""
     return G.norm_floats(line)
 
 
